@@ -82,6 +82,8 @@ def run_jobs(jobs, nproc=None, slice_s=20.0, total_budget_s=3600, verbose=False)
     if verbose:
         for i, j in enumerate(jobs):
             r = results[i]
+            if r.exc_msgs:
+                print("      exceptions: %s" % r.exc_msgs)
             print("  job %-55s paths=%-6d obl=%d/%d sat=%d exc=%s xval=%d/%d%s%s" % (
                 j.name, r.paths, r.discharged, r.obligations, r.sat, r.exc_paths, r.xval_ok, r.xval_ok + r.xval_inexact + len(r.xval_bad),
                 " UNSUPPORTED:%s" % str(r.unsupported[:1])[:160] if r.unsupported else "", " ERR:%s" % str(r.errors[:1])[:160] if r.errors else ""))
